@@ -37,65 +37,61 @@ theorem C15_nested_option_not_distinguishable :
 
 /-! ### across the wire
 
-`wireT t` is the closed form of `erltf::decode (erltf::encode t)` on the terms the serialiser builds (wide integers come
-back as big integers, `OwnedTerm::String` as a binary, `List([])` as `Nil`, maps re-inserted).  It is tied to the
-encoder/decoder models and to the real code on every generated case (driver request `c15wire`; see notes/C15.md,
-trusted assumptions); the witnesses below go through the encoder/decoder models themselves. -/
+`wireT t` is the closed form of `erltf::decode (erltf::encode t)` on the terms the serialiser builds (integers outside the
+i32 range come back as big integers, `OwnedTerm::String` as a binary, `List([])` as `Nil`, maps re-inserted).  It is tied
+to the encoder/decoder models and to the real code on every generated case (driver request `c15wire`; notes/C15.md,
+trusted assumptions). -/
 
-/-- the guard of the wire theorem: distinguishable in memory and after the wire, and within what the current code carries -/
-def wireOK (v : Val) (ty : Ty) : Bool :=
-  distinguishable v ty && Val.plainW v && wireSafe v
-
-/-- Across the wire, partial: with no `char` and every non-`u64` integer within the i32 range (`wireSafe`), the value
-comes back unchanged — `u64` over its whole range, floats, strings, options, containers, structs, Elixir structs, enums. -/
-theorem C15_wire_partial (ty : Ty) (v : Val) (ht : hasTy v ty = true) (hg : wireOK v ty = true) :
+/-- Across the wire, full strength: every value of every distinguishable type comes back unchanged — all integer widths
+over their whole range (read back from either integer representation), every `char`, floats, strings, options,
+containers, structs, Elixir structs, all variant shapes.  `distinguishableW` excludes only what the property excludes
+(nested `Option`, `Option<()>`-like payloads, f32 NaN) and fixes the canonical listing of map entries (in memory and on
+the wire form of the keys). -/
+theorem C15_wire (ty : Ty) (v : Val) (ht : hasTy v ty = true) (hd : distinguishableW v ty = true) :
     de ty (wireT (ser v)) = .ok v := by
-  simp only [wireOK, distinguishable, Val.plainW, Bool.and_eq_true] at hg
-  exact deW ty v ht hg.1.1.1 hg.1.1.2 hg.1.2 hg.2
+  simp only [distinguishableW, distinguishable, Val.plainW, Bool.and_eq_true] at hd
+  exact deW ty v ht hd.1.1 hd.1.2 hd.2
 
-example : hasTy (.struct [97] [([120], .int .u64 1099511627776), ([121], .seq [.string [104, 105]])])
-      (.struct [97] [([120], .int .u64), ([121], .seq .string)]) = true ∧
-    wireOK (.struct [97] [([120], .int .u64 1099511627776), ([121], .seq [.string [104, 105]])])
-      (.struct [97] [([120], .int .u64), ([121], .seq .string)]) = true := by decide
+example : hasTy (.struct [97] [([120], .int .i64 1099511627776), ([121], .seq [.char 128512]), ([122], .map [(.int .i64 (-4294967296), .unit)])])
+      (.struct [97] [([120], .int .i64), ([121], .seq .char), ([122], .map (.int .i64) .unit)]) = true ∧
+    distinguishableW (.struct [97] [([120], .int .i64 1099511627776), ([121], .seq [.char 128512]), ([122], .map [(.int .i64 (-4294967296), .unit)])])
+      (.struct [97] [([120], .int .i64), ([121], .seq .char), ([122], .map (.int .i64) .unit)]) = true := by decide
 
-/-- The full-strength wire statement is FALSE for the current code: `from_bytes::<i64>(to_bytes(2^40))` is an error
-(through the encoder and decoder models, no closed form involved). -/
-theorem C15_not_wire_i64 :
-    ∃ (v : Val) (b : Bytes), hasTy v (.int .i64) = true ∧ distinguishable v (.int .i64) = true ∧
-      toBytes v = .ok b ∧ fromBytes Ext.none (.int .i64) b = .error .err :=
-  ⟨.int .i64 1099511627776, [131, 110, 6, 0, 0, 0, 0, 0, 0, 1], by decide, by decide, by rfl, by rfl⟩
+/-- When every map key is wire-stable (strings, bytes, bool, integers within i32, `u64` above `i64::MAX` …) the in-memory
+guard alone suffices: exactly the hypotheses of `C15_mem`. -/
+theorem C15_wire_stable_keys (ty : Ty) (v : Val) (ht : hasTy v ty = true) (hd : distinguishable v ty = true)
+    (hk : keysStable v = true) : de ty (wireT (ser v)) = .ok v := by
+  apply C15_wire ty v ht
+  simp only [distinguishableW, Bool.and_eq_true]
+  refine ⟨hd, ?_⟩
+  simp only [distinguishable, Bool.and_eq_true] at hd
+  simp only [Val.plainW, plain_stable v hk]
+  exact hd.2
 
-/-- … for `u32` 3 000 000 000 … -/
-theorem C15_not_wire_u32 :
-    ∃ (v : Val) (b : Bytes), hasTy v (.int .u32) = true ∧ distinguishable v (.int .u32) = true ∧
-      toBytes v = .ok b ∧ fromBytes Ext.none (.int .u32) b = .error .err :=
-  ⟨.int .u32 3000000000, [131, 110, 4, 0, 0, 94, 208, 178], by decide, by decide, by rfl, by rfl⟩
+example : keysStable (.tuple [.int .i64 (-9223372036854775808), .char 97, .map [(.string [97], .int .u32 3000000000)]]) = true ∧
+    distinguishable (.tuple [.int .i64 (-9223372036854775808), .char 97, .map [(.string [97], .int .u32 3000000000)]])
+      (.tuple [.int .i64, .char, .map .string (.int .u32)]) = true := by decide
 
-/-- … and for `char`. -/
-theorem C15_not_wire_char :
-    ∃ (v : Val) (b : Bytes), hasTy v .char = true ∧ distinguishable v .char = true ∧
-      toBytes v = .ok b ∧ fromBytes Ext.none .char b = .error .err :=
-  ⟨.char 97, [131, 109, 0, 0, 0, 1, 97], by decide, by decide, by rfl, by rfl⟩
+/-- Across the wire nothing is silently altered. -/
+theorem C15_wire_no_silent_change (ty : Ty) (v v' : Val) (ht : hasTy v ty = true) (hd : distinguishableW v ty = true)
+    (h : de ty (wireT (ser v)) = .ok v') : v' = v := by
+  rw [C15_wire ty v ht hd] at h
+  exact (Except.ok.inj h).symm
 
-/-- Not only the witnesses: EVERY integer of a type other than `u64` outside the i32 range fails across the wire
-(it comes back as a big integer, which only `deserialize_u64` accepts) — an error, not a changed value. -/
-theorem C15_wire_wide_int_always_fails (k : IntTy) (i : Int) (hk : k ≠ .u64) (hi : inI32 i = false) :
-    de (.int k) (wireT (ser (.int k i))) = .error .err := by
-  have h1 : ¬(k = .u64 ∧ i > i64Max) := fun h => hk h.1
-  simp [ser, serInt, h1, wireT, hi, de, deInt, hk]
+example : de (.int .i64) (wireT (ser (.int .i64 1099511627776))) = .ok (.int .i64 1099511627776) := by rfl
 
-example : (IntTy.i64 ≠ IntTy.u64) ∧ inI32 (-2147483649) = false := by decide
-
-/-- … and every `char` does (`OwnedTerm::String` is written as a binary, which `deserialize_char` rejects). -/
-theorem C15_wire_char_always_fails (c : Nat) : de .char (wireT (ser (.char c))) = .error .err := by
-  simp [ser, wireT, de, deChar]
-
-/-- `u64` survives over its whole range (the one integer deserialiser that reads big integers). -/
-theorem C15_wire_u64_full_range (i : Int) (h : IntTy.u64.inRange i = true) :
-    de (.int .u64) (wireT (ser (.int .u64 i))) = .ok (.int .u64 i) := by
+/-- Every integer type over its whole range, in whichever representation the wire gives it. -/
+theorem C15_wire_int_full_range (k : IntTy) (i : Int) (h : k.inRange i = true) :
+    de (.int k) (wireT (ser (.int k i))) = .ok (.int k i) := by
   simp only [ser, de]
-  exact deInt_wire .u64 i h (by simp)
+  exact deInt_wire k i h
 
-example : IntTy.u64.inRange 18446744073709551615 = true := by decide
+example : IntTy.u64.inRange 18446744073709551615 = true ∧ IntTy.i64.inRange (-9223372036854775808) = true := by decide
+
+/-- Every `char`. -/
+theorem C15_wire_char (c : Nat) (h : isScalar c = true) : de .char (wireT (ser (.char c))) = .ok (.char c) := by
+  simp [ser, wireT, de, deChar, utf8_one c h]
+
+example : isScalar 1114111 = true := by decide
 
 end Edp.Props.C15
